@@ -11,18 +11,38 @@
 EXTENDS TestCasesOps, TLC
 
 Profiles == {"hq", "ld"}
-Cfgs == {c \in [profile : Profiles, lossless : BOOLEAN, fragments : BOOLEAN, fields : BOOLEAN] :
-           ~(c.profile = "ld" /\ c.lossless)}       \* lossless coding is defined for the HQ profile only
+(* the abstract configuration space: every combination of the dimensions the generators, the encoder   *)
+(* and the validator branch on.  Excluded: lossless low delay (lossless coding is defined for the HQ   *)
+(* profile only); a symmetric transform without a default quantisation matrix (not instantiated).      *)
+Cfgs == {c \in [profile : Profiles, lossless : BOOLEAN, fragments : BOOLEAN, fields : BOOLEAN,
+                asym : BOOLEAN, qm : QmClasses, range : RangeClasses, slice : SliceClasses,
+                chroma : ChromaFormats] :
+           /\ ~(c.profile = "ld" /\ c.lossless)
+           /\ (c.qm = "custom_only" => c.asym)}
 
-VARIABLES cfg, fam, sub, stage, judged, names
-vars == <<cfg, fam, sub, stage, judged, names>>
+VARIABLES cfg, rng, info, fam, sub, stage, judged, names
+vars == <<cfg, rng, info, fam, sub, stage, judged, names>>
 
-None == [profile |-> "none", lossless |-> FALSE, fragments |-> FALSE, fields |-> FALSE]
+None == [profile |-> "none", lossless |-> FALSE, fragments |-> FALSE, fields |-> FALSE,
+         asym |-> FALSE, qm |-> "default", range |-> "preset_v2", slice |-> "small", chroma |-> "444"]
+NoRange == <<0, 0, 0, 0>>
+(* what the catalogue's expectations (families omitted, sub-cases) depend on; ExpKeyIsEnough shows    *)
+(* that it is all they depend on, so the expectations are enumerated once per key                     *)
+ExpKey(c) == [profile |-> c.profile, lossless |-> c.lossless, fields |-> c.fields, ver |-> MinVersion(c),
+              qmcustom |-> c.qm = "custom"]
+Rep(k) == [BaseCfg EXCEPT !.profile = k.profile, !.lossless = k.lossless, !.fields = k.fields,
+                          !.fragments = (k.ver = 3), !.qm = IF k.qmcustom THEN "custom" ELSE "default"]
+NoInfo == [dev |-> 0, key |-> ExpKey(None)]
 
-Init == cfg = None /\ fam = "" /\ sub = <<>> /\ stage = "idle" /\ judged = "" /\ names = {}
+Init == cfg = None /\ rng = NoRange /\ info = NoInfo /\ fam = "" /\ sub = <<>> /\ stage = "idle" /\ judged = "" /\ names = {}
 
+(* a configuration and, within its range class, the concrete signal range; info.dev = in how many     *)
+(* dimensions it differs from the base configuration (the quick tier instantiates every configuration *)
+(* with dev <= 3, the thorough tier all of them); info.key = the key of its expectations              *)
 Choose == /\ stage = "idle" /\ cfg = None
           /\ cfg' \in Cfgs
+          /\ rng' \in RangesOf(cfg'.range)
+          /\ info' = [dev |-> Deviations(cfg'), key |-> ExpKey(cfg')]
           /\ UNCHANGED <<fam, sub, stage, judged, names>>
 
 Generate == /\ stage = "idle" /\ cfg # None
@@ -32,15 +52,15 @@ Generate == /\ stage = "idle" /\ cfg # None
                       /\ <<f, s>> \notin names
                       /\ fam' = f /\ sub' = s /\ names' = names \cup {<<f, s>>}
             /\ stage' = "generated"
-            /\ UNCHANGED <<cfg, judged>>
+            /\ UNCHANGED <<cfg, rng, info, judged>>
 
-Serialise == stage = "generated" /\ stage' = "serialised" /\ UNCHANGED <<cfg, fam, sub, judged, names>>
-Validate  == stage = "serialised" /\ stage' = "validated" /\ UNCHANGED <<cfg, fam, sub, judged, names>>
-Decode    == stage = "validated" /\ stage' = "decoded" /\ UNCHANGED <<cfg, fam, sub, judged, names>>
+Serialise == stage = "generated" /\ stage' = "serialised" /\ UNCHANGED <<cfg, rng, info, fam, sub, judged, names>>
+Validate  == stage = "serialised" /\ stage' = "validated" /\ UNCHANGED <<cfg, rng, info, fam, sub, judged, names>>
+Decode    == stage = "validated" /\ stage' = "decoded" /\ UNCHANGED <<cfg, rng, info, fam, sub, judged, names>>
 Relate    == /\ stage = "decoded"
              /\ judged' = Rel(fam).rel
              /\ stage' = "idle"
-             /\ UNCHANGED <<cfg, fam, sub, names>>
+             /\ UNCHANGED <<cfg, rng, info, fam, sub, names>>
 
 Next == Choose \/ Generate \/ Serialise \/ Validate \/ Decode \/ Relate
 Spec == Init /\ [][Next]_vars
@@ -66,5 +86,35 @@ NamesUnique == stage = "generated" => <<fam, sub>> \in names
 \* mid-grey relations are only claimed for mid-grey sources
 GreyOnlyForGreySource == \A f \in Families : Rel(f).grey => Rel(f).src = "mid_gray"
 
-View == <<cfg, fam, sub, stage>>
+(* --- coherence of the new dimensions ---------------------------------------------------- *)
+\* the classification operators the trace spec applies to concrete projections invert the enumeration
+ClassesInvert == cfg # None => /\ RangeClassOf(rng) = cfg.range
+                               /\ \A c \in RangeClasses : RangesOf(c) # {}
+\* version 3 is declared exactly when one of the version-3 features is used, each of them alone suffices
+VersionRule == cfg # None =>
+   /\ MinVersion(cfg) \in 1..3
+   /\ (MinVersion(cfg) = 3) <=> (cfg.fragments \/ cfg.asym \/ cfg.range = "preset_v3")
+   /\ (cfg.profile = "hq" => MinVersion(cfg) >= 2)
+\* every single version-3 feature occurs alone in some configuration of the space (C05_3 class), and the
+\* configurations in which only the luma block of a slice needs a slice_size_scaler above 1 occur for every
+\* lossless / lossy kind (C05_4 class)
+AloneV3(c) == Cardinality({x \in {"fragments", "asym", "range"} :
+                 (x = "fragments" /\ c.fragments) \/ (x = "asym" /\ c.asym) \/ (x = "range" /\ c.range = "preset_v3")}) = 1
+ASSUME SpaceCovers ==
+   /\ \A p \in Profiles : \E c \in Cfgs : c.profile = p /\ AloneV3(c) /\ c.range = "preset_v3" /\ Deviations(c) <= 3
+   /\ \A p \in Profiles : \E c \in Cfgs : c.profile = p /\ AloneV3(c) /\ c.asym /\ Deviations(c) <= 3
+   /\ \A p \in Profiles : \E c \in Cfgs : c.profile = p /\ AloneV3(c) /\ c.fragments /\ Deviations(c) <= 3
+   /\ \A ch \in ChromaFormats \ {"444"} : \E c \in Cfgs : c.lossless /\ c.chroma = ch /\ ScalerDependsOnLumaOnly(c) /\ Deviations(c) <= 3
+
+ASSUME ExpKeyIsEnough ==
+   \A c \in Cfgs : /\ ExpKey(Rep(ExpKey(c))) = ExpKey(c)
+                    /\ \A f \in Families : /\ Omitted(c, f) = Omitted(Rep(ExpKey(c)), f)
+                                             /\ SubCases(c, f) = SubCases(Rep(ExpKey(c)), f)
+
+(* the configuration and its signal range are part of the view of the state reached by Choose only;   *)
+(* a generated test case is viewed through the key of its expectations, its later life through the     *)
+(* dimensions that life depends on                                                                     *)
+LifeKey(c) == [ExpKey(c) EXCEPT !.ver = 0, !.qmcustom = FALSE]
+View == <<IF fam = "" THEN <<cfg, rng>> ELSE <<None, NoRange>>,
+          IF stage = "generated" THEN ExpKey(cfg) ELSE LifeKey(cfg), fam, sub, stage>>
 =============================================================================
